@@ -252,11 +252,41 @@ impl Span {
     }
 }
 
-#[derive(Debug, Clone, PartialEq)]
+#[derive(Debug, PartialEq)]
 pub(crate) enum SpanInfo {
     Prim(Span),
     Cons(Span, Box<[SpanInfo; 2]>),
     Vec(Span, Vec<SpanInfo>),
+}
+
+impl Clone for SpanInfo {
+    /// Clones the chain of `cdr` infos of a list iteratively.
+    fn clone(&self) -> Self {
+        let (span, info) = match self {
+            SpanInfo::Prim(span) => return SpanInfo::Prim(*span),
+            SpanInfo::Vec(span, elements) => return SpanInfo::Vec(*span, elements.clone()),
+            SpanInfo::Cons(span, info) => (span, info),
+        };
+        let placeholder = || SpanInfo::Prim(Span::empty());
+        let mut head = SpanInfo::Cons(*span, Box::new([info[0].clone(), placeholder()]));
+        let mut tail = &mut head;
+        let mut cursor = &info[1];
+        loop {
+            let slot = &mut tail.cons_mut().unwrap()[1];
+            match cursor {
+                SpanInfo::Cons(span, info) => {
+                    *slot = SpanInfo::Cons(*span, Box::new([info[0].clone(), placeholder()]));
+                    tail = slot;
+                    cursor = &info[1];
+                }
+                other => {
+                    *slot = other.clone();
+                    break;
+                }
+            }
+        }
+        head
+    }
 }
 
 impl Drop for SpanInfo {
